@@ -279,15 +279,27 @@ theorem wfe_foldl (ps : List Str) (d : Dict) (hd : ∀ e ∈ d, WFE e) (hp : ∀
     simp only [List.foldl_cons]
     exact ih _ (wfe_addClause d p hd (hp p (by simp))) (fun q hq => hp q (List.mem_cons_of_mem _ hq))
 
-theorem lowerC_ne (c x : Nat) (hc : c < 65) (h : x ≠ c) : lowerC x ≠ c := by
-  unfold lowerC; split <;> omega
+private theorem pyLower_outputs_ge : ∀ e ∈ Gen.C32.pyLower, ∀ y ∈ e.2, 65 ≤ y := by decide +kernel
+
+theorem lowerC_mem (c x : Nat) (hc : c < 65) (h : c ∈ lowerC x) : x = c := by
+  unfold lowerC at h
+  by_cases hx : x < 128
+  · simp only [hx, if_true, List.mem_singleton] at h
+    split at h <;> omega
+  · simp only [hx, if_false] at h
+    cases hf : Gen.C32.pyLower.find? (fun e => e.1 == x) with
+    | none => rw [hf] at h; simp only [List.mem_singleton] at h; omega
+    | some e =>
+      rw [hf] at h
+      have := pyLower_outputs_ge e (List.mem_of_find?_eq_some hf) c h
+      omega
 
 theorem lower_notin (c : Nat) (s : Str) (hc : c < 65) (h : c ∉ s) : c ∉ lower s := by
   unfold lower
   intro hm
-  rw [List.mem_map] at hm
+  rw [List.mem_flatMap] at hm
   obtain ⟨x, hx, he⟩ := hm
-  exact lowerC_ne c x hc (fun e => h (e ▸ hx)) he
+  exact h (lowerC_mem c x hc he ▸ hx)
 
 /-- what `parse_content_type` returns is well formed -/
 theorem parse_wf (c ty sub : Str) (d : Dict) (h : parseContentType c = some (ty, sub, d)) :
